@@ -18,7 +18,17 @@ extern "C" fn exit_hook() {
     }
 }
 
+const ENV_BASE: i32 = 1 << 20;
+
 fn cell(sig: i32, status: i32, armed: bool, e: &mut Emit) {
+    if sig == 0 {
+        // two pipe registrations sharing one open file description, one of them gone, the pipe full
+        return super::c13::shared_cell(super::c13::Kind::Pipe, status as usize, e);
+    }
+    if status >= ENV_BASE {
+        // the standard descriptors in a state in which a write kills or blocks the process
+        super::c15::std_fd_env((status - ENV_BASE) as u8);
+    }
     HOOK_FD.store(e.fd(), std::sync::atomic::Ordering::SeqCst);
     unsafe {
         libc::atexit(exit_hook);
@@ -46,6 +56,12 @@ pub fn run(_tier: Tier) -> BResult {
             cells.push((sig, st, true));
         }
         cells.push((sig, 300, false));
+        for env in 3..=6 {
+            cells.push((sig, ENV_BASE + env, true));
+        }
+    }
+    for v in 0..5 {
+        cells.push((0, v, true));
     }
     let c2 = cells.clone();
     let probes = run_cells(cells.len(), 16, Duration::from_secs(20), move |i, e| cell(c2[i].0, c2[i].1, c2[i].2, e));
@@ -55,10 +71,21 @@ pub fn run(_tier: Tier) -> BResult {
         let (sig, st, armed) = cells[i];
         let case = json!({"grid": "conditional shutdown with an out-of-range status", "signal": sig, "status": st, "armed": armed});
         distinct.insert((p.fate.describe(), armed));
+        if sig == 0 {
+            let case = json!({"grid": "two self-pipe registrations share one open file description (dup'ed write ends); one is removed or refused; the pipe is completely full; the other one's signal is delivered", "history": st});
+            if p.fate == Fate::TimedOut {
+                violations.push(BViolation { message: format!("C03: handler frame does not finish: the wake write into the full self-pipe blocked (shared-description history {}, after {} deliveries)", st, p.all("delivered ").len()), case });
+            } else if p.fate != Fate::Exited(0) {
+                violations.push(BViolation { message: format!("C03: shared-description history {}: child {}", st, p.fate.describe()), case });
+            }
+            continue;
+        }
         let bad = if !armed {
             if p.fate != Fate::Exited(0) || !p.has("survived") { Some(format!("not armed, but the process {}", p.fate.describe())) } else { None }
         } else if p.has("atexit-ran") {
             Some("exit-time hooks ran inside the signal handler (exit instead of _exit: not async-signal-safe, unbounded)".to_string())
+        } else if p.fate == Fate::TimedOut {
+            Some("handler frame does not finish: the delivery blocked (a write to a standard descriptor that is a full pipe?)".to_string())
         } else if p.fate != Fate::Exited(st & 0xff) {
             Some(format!("the delivery must end the process with exit status {} (the low 8 bits of {}), but it {}{}", st & 0xff, st, p.fate.describe(), if p.fate == Fate::Signaled(libc::SIGABRT) { " - a panic inside the signal handler" } else { "" }))
         } else {
@@ -78,7 +105,7 @@ pub fn run(_tier: Tier) -> BResult {
         violations,
         exhaustive: true,
         caps: vec![],
-        rule: "termination signals x exit statuses {-1,-255,-256,256,257,511,1000,65536,MIN,MAX,0,255} armed (+ one not armed): the delivery ends the process by _exit with the low 8 bits, never by a panic, and without running exit-time hooks inside the handler (an atexit hook is registered in every cell)".into(),
+        rule: "termination signals x exit statuses {-1,-255,-256,256,257,511,1000,65536,MIN,MAX,0,255} armed (+ one not armed): the delivery ends the process by _exit with the low 8 bits, never by a panic, and without running exit-time hooks inside the handler (an atexit hook is registered in every cell); the same with standard error / output being a pipe without a reader or a full blocking pipe; 5 histories of two pipe registrations sharing one open file description (one removed or refused, the pipe completely full, the other's signal delivered): the delivery returns".into(),
         assumptions: vec![],
     }
 }
